@@ -66,8 +66,12 @@ class SimClock(object):
         if dst and dst.get('has'):
             on = bool(dst.get('on'))
             self.std = eff - (_HOUR if on else _dt.timedelta(0))
+            try:
+                ref = self.now - (_HOUR if on else _dt.timedelta(0))
+            except OverflowError:
+                ref = self.now          # (the first hour of year 1)
             for rule in ('north', 'south'):
-                if _rule_active(rule, self.now - (_HOUR if on else _dt.timedelta(0))) == on:
+                if _rule_active(rule, ref) == on:
                     self.rule = rule
                     break
             if self.rule is None:
@@ -325,7 +329,9 @@ class _RandomShim(object):
 def _fake_disk_partitions(all=False):
     from collections import namedtuple
     P = namedtuple('sdiskpart', ['device', 'mountpoint', 'fstype', 'opts'])
-    return [P('/dev/sim%d' % i, m, 'ext4', 'rw') for i, m in enumerate(K.mount_listing())]
+    # (world['same_device']: mount points that show the same device string - btrfs subvolumes, bind mounts of sub-directories)
+    pool = set(getattr(K, 'same_device', None) or ())
+    return [P('/dev/simpool' if m in pool else '/dev/sim%d' % i, m, 'btrfs' if m in pool else 'ext4', 'rw') for i, m in enumerate(K.mount_listing())]
 
 
 def _mount_listing(self):
